@@ -191,13 +191,13 @@ func genCastValue(rt *rapid.T, src, dst tensor.Dtype) reflect.Value {
 // ---- case -----------------------------------------------------------------------------------
 
 type c11Case struct {
-	op      string
-	node    *onnx.NodeProto
-	ins     []tensor.Tensor
-	want    tensor.Tensor // expected result (valid cases)
-	valid   bool
-	mayRef  bool // computed-or-refused class
-	feature string
+	op         string
+	node       *onnx.NodeProto
+	ins        []tensor.Tensor
+	want       tensor.Tensor // expected result (valid cases)
+	valid      bool
+	mayRef     bool // computed-or-refused class
+	feature    string
 	rank0Value bool
 }
 
